@@ -271,6 +271,36 @@ func solveVC(vc *VC, obls []*Obl, opts SolveOpts) {
 		}(o)
 	}
 	wg.Wait()
+	// an obligation that merely timed out (no solver said sat) gets one more race with four times the budget before
+	// it is reported: on a loaded machine a proof that normally takes seconds must not turn into an alarm
+	if !opts.AllSolvers && opts.SingleMs <= 60000 {
+		retry := opts
+		retry.SingleMs = opts.SingleMs * 4
+		n := 0
+		for _, o := range obls {
+			if o.WantSat || o.Status == "unsat" || o.Status == "sat" || o.Status == "disagree" || strings.HasPrefix(o.Status, "error") {
+				continue
+			}
+			n++
+			if n > 12 {
+				break // many undecided obligations: this is a real failure, not load
+			}
+		}
+		if n > 0 && n <= 12 {
+			var wg2 sync.WaitGroup
+			for _, o := range obls {
+				if o.WantSat || o.Status == "unsat" || o.Status == "sat" || o.Status == "disagree" || strings.HasPrefix(o.Status, "error") {
+					continue
+				}
+				wg2.Add(1)
+				go func(o *Obl) {
+					defer wg2.Done()
+					raceSingle(vc, o, base, retry)
+				}(o)
+			}
+			wg2.Wait()
+		}
+	}
 }
 
 func firstErrorLine(out string) string {
